@@ -4,7 +4,8 @@ C14 - re-parsing is idempotent and commit=False has no side effects.
 Explicit-state breadth-first search on live objects: seed objects (Tract / PLSSDesc, created parsed and
 unparsed) x all operation sequences up to a depth bound, with state de-duplication on a canonical
 snapshot of every public attribute (results *and* settings).  Oracles on every transition:
- (1) a commit=False operation leaves the snapshot unchanged and returns what the committing call yields;
+ (1) a commit=False operation leaves the snapshot unchanged, returns what the committing call yields, and leaves a fresh
+     object's replay of the same history unchanged (no side effect outside the object either);
  (2) history reduction (differential): the snapshot after history h equals the snapshot of a freshly
      constructed object on which only reduce(h) is replayed;
  (3) op;op == op for every committed operation.
@@ -19,7 +20,7 @@ STATES_FROM_OUTCOMES = True    # distinct states = distinct snapshots over all u
 LEVEL = 'model_checking'
 TECHNIQUE = ('explicit-state BFS over operation sequences on live PLSSDesc / Tract objects (deepcopy branching, canonical snapshot, '
              'seen-set), with no-side-effect, history-reduction (fresh-object differential) and idempotence oracles on every transition')
-LEVEL_TEXT = ('From 8 seed objects x {parsed, unparsed at creation}, all sequences of up to 4 (quick) / 7 (thorough) operations out of 22 '
+LEVEL_TEXT = ('From 10 seed objects (parsed or unparsed at creation), all sequences of up to 4 (quick) / 7 (thorough) operations out of 25 '
               '(PLSSDesc) / 13 (Tract) - parse with and without commit and with keyword overrides, parse_tracts, preprocess, config '
               'assignment, sort, filter-with-drop - are explored with state merging; every transition is checked against a freshly '
               'constructed object that replays only the reduced history, so any state that leaks from an earlier parse (accumulated '
@@ -37,6 +38,8 @@ ASSUMPTIONS = [
     "operation menu and seed objects are finite; sequences longer than the depth bound are not explored (states merge quickly, see coverage)",
 ]
 DEPTH = {'quick': 4, 'thorough': 7}
+UNIT_DEADLINE = {'quick': 60.0, 'thorough': 1200.0}   # a clean unit takes 1-3 s (quick); leaked process state can make every call slower
+MAX_TIMEOUTS = 4
 _p = None
 
 
@@ -99,6 +102,8 @@ PLSS_OPS = {
     'parse(commit=False,segment,parse_qq=False)': (lambda d: d.parse(commit=False, segment=True, parse_qq=False), 'nc'),
     'parse(commit=False,layout=copy_all)': (lambda d: d.parse(commit=False, layout='copy_all'), 'nc'),
     'parse(commit=False,clean_qq,qq_depth=1)': (lambda d: d.parse(commit=False, clean_qq=True, qq_depth=1), 'nc'),
+    'parse(commit=False,ocr_scrub=True)': (lambda d: d.parse(commit=False, ocr_scrub=True), 'nc'),
+    'parse(ocr_scrub=True)': (lambda d: d.parse(ocr_scrub=True), 'parse'),
     'parse(parse_qq=True)': (lambda d: d.parse(parse_qq=True), 'parse'),
     'parse(parse_qq=False)': (lambda d: d.parse(parse_qq=False), 'parse'),
     'parse(default_ns=s)': (lambda d: d.parse(default_ns='s'), 'parse'),
@@ -110,6 +115,7 @@ PLSS_OPS = {
     'parse_tracts(qq_depth=1)': (lambda d: d.parse_tracts(qq_depth=1), 'post'),
     'parse_tracts(suppress_lot_divs=True)': (lambda d: d.parse_tracts(suppress_lot_divs=True), 'post'),
     'preprocess(commit=False,default_ns=s)': (lambda d: d.preprocess(commit=False, default_ns='s'), 'nc'),
+    'preprocess(commit=False,ocr_scrub=True)': (lambda d: d.preprocess(commit=False, ocr_scrub=True), 'nc'),
     'preprocess(commit=True)': (lambda d: d.preprocess(commit=True), 'post'),
     "config='clean_qq,parse_qq'": (lambda d: setattr(d, 'config', 'clean_qq,parse_qq'), 'cfg'),
     "config='s,e,segment'": (lambda d: setattr(d, 'config', 's,e,segment'), 'cfg'),
@@ -138,6 +144,7 @@ NC_COUNTERPART = {
     'parse(commit=False,segment,parse_qq=False)': lambda d: d.parse(segment=True, parse_qq=False),
     'parse(commit=False,layout=copy_all)': lambda d: d.parse(layout='copy_all'),
     'parse(commit=False,clean_qq,qq_depth=1)': lambda o: o.parse(clean_qq=True, qq_depth=1),
+    'parse(commit=False,ocr_scrub=True)': lambda d: d.parse(ocr_scrub=True),
     'parse(commit=False,suppress_lot_divs,break_halves)': lambda t: t.parse(suppress_lot_divs=True, break_halves=True),
 }
 
@@ -148,6 +155,8 @@ SEEDS = [
     ('plss', 'T154N-R97W Sec 14: Lots 1(40.00), 1, N/2 of Lot 2, NE/4, NE/4 less and except the wellbore, Sec 36: ALL',
      {'config': 'parse_qq,sec_colon_cautious', 'source': 'doc 7'}),
     ('plss', 'Sec 4, T154N-R97W, and Sec 14: NE, Lots 3 - 1', {'config': 'clean_qq', 'wait_to_parse': True}),
+    # a Twp/Rge that only the OCR scrubber recognises ('lS4' for '154'), on an object configured without ocr_scrub
+    ('plss', 'Township lS4 North, Range 97 West\nSection 14: NE/4, Lots 1 - 3\nT155N-R97W Sec 22: N/2NE/4', {}),
     ('tract', 'Lots 1, 1, 3 - 2, NE/4, NE/4', {'trs': '154n97w14', 'parse_qq': True}),
     ('tract', 'Lot 1(38.12), Lot 1(39.00), N/2 of Lot 2, NE', {'trs': '154n97w14'}),
     ('tract', 'N/2 of Lots 3 - 4, E/2W/2NE/4', {'trs': '1s2e01', 'config': 'qq_depth_min.3'}),
@@ -249,6 +258,20 @@ def check_transition(acc, n, hist, name, before, obj0):
                 acc.violation('commit_false_result_differs', f"C14:commit_false_result_differs:{SEEDS[n][0]}:{name}", case,
                               got=result_value(ret), exp=result_value(ret2))
                 return None
+        # ... and no side effect outside the object either: every reached state equals a fresh object that replays its
+        # reduced history (established by oracle 2 when the state was reached); that must still be so after the call
+        try:
+            again = snap(replay_fresh(n, reduce_history(n, hist)))
+        except Exception as ex:  # noqa
+            acc.violation('exception_on_fresh_replay', f"C14:exception_on_fresh_replay:{n}:{name}", case, got=f"{type(ex).__name__}: {ex}")
+            return None
+        if again != before:
+            diff = [i for i, (a, b) in enumerate(zip(before, again)) if a != b]
+            acc.violation('commit_false_leaks_outside_object', f"C14:commit_false_leaks_outside_object:{SEEDS[n][0]}:{name}", case,
+                          got=[again[i] for i in diff][:2], exp=[before[i] for i in diff][:2],
+                          note=f"a fresh object replaying {reduce_history(n, hist)} after the call differs from the same replay before "
+                               f"it (snapshot fields {diff}): the call changed state outside the object")
+            return None
         acc.guard('nocommit_checked')
         return o, after
     # (2) history reduction against a fresh object
